@@ -119,7 +119,10 @@ CLAIMS = {
              'window_is_batch_window / batched_count (the rendered window is C11\'s Batch.window: end - start + 1 elements), '
              'prev_vars / next_vars / vars_are_links (previous-/next-sequence variables = C11 links), get_set_same / '
              'get_set_alias (batch variables under their name and the prefix= alias), inx_scope_ends, two batched renderings '
-             'evaluated in the kernel. Correspondence: unbatched loops over lists/tuples '
+             'evaluated in the kernel. The loop of InClass.renderwob is translated from the source on every run '
+             '(harness/trans_in.py -> GenIn.lean) and proved equal to inLoop: gen_in_step_is_model (one pass: flag stores, '
+             'guarded fetch, tuple convention, push / render / pop), gen_in_step_keeps_start (the stored sequence-start is '
+             'the computed one), gen_in_loop_is_model, gen_in_loop_from_start. Correspondence: unbatched loops over lists/tuples '
              'of objects, mappings, 2-tuples, strings, numbers printing every variable, and nested loops with different '
              'prefixes; oracle: documented values computed from element positions, also for iterators / generators / lazy '
              'sequences and sort / reverse / batch combinations',
@@ -127,7 +130,7 @@ CLAIMS = {
              'slice of random programs with sorted / reversed / batched loops under fault plans). Partial: batch parameters by '
              'variable name, sort_expr / reverse_expr, multi-key sorts, lazy inputs, next-/previous-batches are oracle-only; '
              'roman numerals modelled for positions < 5000',
-        technique='Lean 4 proof (induction on the loop, case analysis of the variable lookup, kernel evaluation over the full '
+        technique='Lean 4 proof over a model partly regenerated from the source on every run (the loop of renderwob: statement-by-statement translator, equality with inLoop proved); Lean 4 proof (induction on the loop, case analysis of the variable lookup, kernel evaluation over the full '
                   'finite numeral range) + model/implementation correspondence + independent value oracle',
         ref='DESIGN.md §5 C10'),
     'C01': dict(
